@@ -149,31 +149,9 @@ def check(F, rep):
     # is_default_route semantics: explicit flag, else prefix_len == 0
     g = get_fn(F, rep, OPTS + "::is_default_route")
     ft = field_tests(g, "is_default_route")
-    pl = find_calls(g, OPTS + "::prefix_len")
-    rep.ob("symmetry", len(ft) == 1 and len(pl) == 1 and requires_failure(g, pl[0][0], ft), site(g), "is_default_route(): explicit flag if set, otherwise prefix_len() == 0", skey(F, g, "implicit-default"))
-
-
-def _derives_from_transports(f, t):
-    """the iterator consumed by call `t` is (a chain over) self.transports.iter()"""
-    l = op_base(t["args"][0]) if t["args"] else None
-    for _ in range(8):
-        if l is None:
-            return False
-        dc = def_call(f, l)
-        if dc is None:
-            ds = [s2["rv"] for b2, i2, s2 in f.stmts() if s2["k"] == "a" and s2["lhs"] == {"l": l}]
-            if len(ds) == 1 and ds[0]["k"] == "ref" and not ds[0]["p"].get("p"):
-                l = ds[0]["p"]["l"]
-                continue
-            if len(ds) == 1 and ds[0]["k"] == "use" and ds[0]["o"]["k"] in ("copy", "move") and not ds[0]["o"]["p"].get("p"):
-                l = ds[0]["o"]["p"]["l"]
-                continue
-            return False
-        if call_matches(dc[1], r"Iterator::(filter|map|filter_map|rev|skip|take|chain|enumerate|peekable)$"):
-            l = op_base(dc[1]["args"][0])
-            continue
-        if call_matches(dc[1], r"::iter$|::iter_mut$|IntoIterator::into_iter$"):
-            x = copy_sources(f, op_base(dc[1]["args"][0]))
-            return bool(x) and all(y[0] == "arg" and y[1] == 1 and tuple(y[2])[-1:] == ("transports",) for y in x)
-        return False
-    return False
+    tree = F.tree(g)
+    pl = [(h, b, t) for h in tree for b, t in find_calls(h, OPTS + "::prefix_len")]
+    zero = [1 for h in tree for cb, s_, ts in cmp_tests(h, ops=("Eq",)) if any(const_int(F, o) == 0 for o in (s_["rv"]["a"], s_["rv"]["b"]))]
+    reads = any(fld == "is_default_route" for h in tree for l in range(len(h.locals)) for _, fld in defuse(h).field_reads(l)) if False else bool(ft) or any(call_matches(t, r"Option::(unwrap_or_else|unwrap_or|map_or|map_or_else)$") and recv_field(g, t["args"][0]) == "is_default_route" or (call_matches(t, r"Option::(unwrap_or_else|unwrap_or|map_or|map_or_else)$") and any(x[0] == "arg" and tuple(x[2])[-1:] == ("is_default_route",) for x in copy_sources(g, op_base(t["args"][0])))) for b, t in g.calls())
+    lazy = (len(ft) == 1 and len(pl) == 1 and pl[0][0] is g and requires_failure(g, pl[0][1], ft)) or (len(pl) == 1 and any(call_matches(t, r"Option::(unwrap_or_else|unwrap_or)$") for b, t in g.calls()))
+    rep.ob("symmetry", reads and len(pl) == 1 and bool(zero) and lazy, site(g), "is_default_route(): explicit flag if set, otherwise prefix_len() == 0", skey(F, g, "implicit-default"))
